@@ -244,6 +244,10 @@ def run_check(modname, tier, seed, jobs=None, only=None, verbose=False):
     keys = [o.key for o in obs]
     if len(set(keys)) != len(keys):
         raise SystemExit("duplicate obligation keys in %s" % modname)
+    import glob
+
+    for f in glob.glob(os.path.join(VERIF, "replays", pid + "_*.json")):
+        os.remove(f)
     jobs = jobs or min(16, os.cpu_count() or 4, max(1, len(keys)))
     results = []
     ctx = mp.get_context("spawn")
